@@ -36,7 +36,8 @@ def _scratch_copy() -> str:
 
 def collect(prop_filter=None):
     out = []
-    for p in sorted(glob.glob(os.path.join(VERIF_DIR, "mutants", "*", "*.diff"))):
+    only_seeded = os.environ.get("VERIF_ONLY_SEEDED") == "1"
+    for p in ([] if only_seeded else sorted(glob.glob(os.path.join(VERIF_DIR, "mutants", "*", "*.diff")))):
         prop = os.path.basename(os.path.dirname(p))
         if prop_filter and prop != prop_filter:
             continue
